@@ -220,11 +220,19 @@ async def after_abor(ctl, state, res):
     res["alive"] = wd.connection_of(c) is not None and not c.eof
     res["stored"] = wd.tree()
     if res["alive"]:
-        c1, _, _, _ = await W.run_line(wd, c, b"PWD")
-        await W.run_line(wd, c, b"EPSV")
-        await W.data_connect(wd, c)
-        c2, _, out2, _ = await W.run_line(wd, c, b"RETR /d/g.txt")
-        c3, _, _, _ = await W.run_line(wd, c, b"QUIT")
+        c1 = c2 = c3 = None
+        out2 = None
+        try:
+            c1, _, _, _ = await W.run_line(wd, c, b"PWD")
+            ce, _, _, _ = await W.run_line(wd, c, b"EPSV")
+            if ce != [229]:
+                raise ConnectionError("EPSV after ABOR answered %r" % (ce,))
+            await W.data_connect(wd, c)
+            c2, _, out2, _ = await W.run_line(wd, c, b"RETR /d/g.txt")
+            c3, _, _, _ = await W.run_line(wd, c, b"QUIT")
+        except (ConnectionError, OSError, asyncio.TimeoutError) as e:
+            # the session looked alive but does not work any more: that IS the outcome to judge
+            res["follow_error"] = "%s: %s" % (type(e).__name__, e)
         res["follow"] = (c1, c2, out2, c3)
 
 
@@ -236,7 +244,7 @@ def _job(args):
     for k in ks:
         try:
             r = SC.run_scenario(sc, k, inject_abor, after_abor)
-            out.append((k, {kk: r.get(kk) for kk in ("inside", "after_abor_undrained", "after_abor", "pos", "phase", "alive", "follow", "got", "stored", "server_data_closed", "skipped", "logged", "transcript", "notes")}))
+            out.append((k, {kk: r.get(kk) for kk in ("inside", "after_abor_undrained", "after_abor", "pos", "phase", "alive", "follow", "got", "stored", "server_data_closed", "skipped", "logged", "transcript", "notes", "follow_error")}))
         except BaseException as e:  # noqa
             out.append((k, "HARNESS-ERROR %s: %s" % (type(e).__name__, e)))
     return idx, out
@@ -291,7 +299,7 @@ def oracle(spec, k, r):
             return {"input": inp, "what": "appended bytes are not old content + a prefix of the payload", "signature": "C14:not-a-prefix:appe"}
     fl = r.get("follow")
     if fl is None or fl[0] != [257] or fl[1] != [150, 226] or fl[2] != b"hello world" or fl[3] != [221]:
-        return {"input": inp, "what": "session not fully usable after ABOR: PWD/RETR/QUIT -> %r" % (fl,), "signature": "C14:follow-up-broken:%s" % verb.lower()}
+        return {"input": inp, "what": "session not fully usable after ABOR: PWD/RETR/QUIT -> %r%s" % (fl, (" (%s)" % r["follow_error"]) if r.get("follow_error") else ""), "signature": "C14:follow-up-broken:%s" % verb.lower()}
     return None
 
 
